@@ -23,7 +23,7 @@ from .codegen import (
 )
 from .error import InvalidTypes
 from .origin import NO_ORIGIN, Origin
-from .serialize import TYPE_KEY, DataClassSerializeMixin
+from .serialize import TYPE_KEY, DataClassSerializeMixin, SerializationOption
 from .types import get_cls_all_fields, get_cls_child_fields, get_cls_props
 from .typing import Field, FieldTypeInfo, check_annotations, is_instance
 
@@ -333,14 +333,18 @@ class ASTNode(DataClassSerializeMixin):
             out["_children"] = []
             out["_children"].extend([f.name for f in get_cls_child_fields(self.__class__)])
 
+            if self._get_serialization_options().get(SerializationOption.SORT_KEYS, False):
+                # Keep the promised order: type key first, then sorted keys
+                out = {k: out[k] for k in sorted(out, key=lambda k: (k != TYPE_KEY, k))}
+
         if (
             self._get_serialization_options().get(AST_SERIALIZE_DIALECT_KEY)
             == ASTSerializationDialects.AST_TEST
         ):
             out.get("origin", {})["source"] = {
                 TYPE_KEY: "Source",
-                "source_uri": "",
                 "source_type": "",
+                "source_uri": "",
             }
 
         return out
